@@ -425,3 +425,57 @@ def rule_P_VALID(ctx, reach, floor=6):
                 ctx.ob("P-VALID", "%s -> %s arg %d" % (fname(b, p), cal.rsplit("::", 2)[-2] + "::" + cal.rsplit("::", 1)[-1], ai), ok,
                        "argument %s is not range-checked on a dominating edge" % want, "%s:%s" % (b["span"]["file"], t["line"]))
     ctx.floor("validated constructor arguments", n, floor)
+
+
+# ----------------------------------------------------------------------------
+# returned borders of the lexical segmenters
+def border_sites(f):
+    """aggregates (tuple / Ok / Err / Some) carrying a usize in lexical-parser functions whose return type mentions usize:
+    these are the borders callers slice with; their expressions and guards are part of the reviewed reference"""
+    out = []
+    for p, b in sorted(f.mir.items()):
+        if "impl_lexical::parser" not in p or "usize" not in b["locals"][0]["ty"]:
+            continue
+        g = mir.cfg(b)
+        sym = G.Sym(b)
+        cnt = {}
+        for bi in sorted(g.reach):
+            if b["blocks"][bi]["cleanup"]:
+                continue
+            for st in b["blocks"][bi]["stmts"]:
+                if st["k"] != "Assign" or st["rv"]["k"] != "Aggregate":
+                    continue
+                rv = st["rv"]
+                label = rv.get("agg")
+                if label == "Adt":
+                    if rv["adt"].rsplit("::", 1)[-1].startswith("Range"):
+                        continue
+                    label = rv["variant"]
+                elif label != "Tuple":
+                    continue
+                us = [o for o in rv["ops"] if o["k"] in ("Copy", "Move") and b["locals"][o["place"]["local"]]["ty"] == "usize" and not o["place"]["proj"]]
+                if not us:
+                    continue
+                cnt[label] = cnt.get(label, 0) + 1
+                key = "%s | returns %s #%d" % (fname(b, p), label, cnt[label])
+                out.append((key, b, bi, st, [sym.operand(o) for o in us], ["%s = %s" % x for x in sym.live_guards(bi)]))
+    return out
+
+
+def rule_R_BORDER(ctx, floor=10):
+    ctx.rule("R-BORDER", "every border a lexical segmenter returns (usize inside a returned tuple / Ok / Err / Some) has the reviewed symbolic "
+             "expression and is computed under the reviewed guards: this is the callee half of the invariant `a returned border never "
+             "exceeds the slice it was computed on` that the callers' slice sites rely on")
+    table = json.load(open(TABLE, encoding="utf-8")).get("borders", {})
+    sites = border_sites(ctx.facts)
+    for key, b, bi, st, ops, live in sites:
+        ctx.fn(b)
+        ent = table.get(key)
+        site = "%s:%s" % (b["span"]["file"], st["line"])
+        if ent is None:
+            ctx.ob("R-BORDER", key, False, "new returned border, not in the reviewed table", site)
+            continue
+        missing = [x for x in ent["need"] if x not in live]
+        ctx.ob("R-BORDER", key, ops == ent["ops"] and not missing,
+               ("border expression changed: %s (reviewed %s)" % (ops, ent["ops"]) if ops != ent["ops"] else "") + (" reviewed guard no longer forced: %s" % missing if missing else ""), site)
+    ctx.floor("returned borders", len(sites), floor)
